@@ -9,6 +9,7 @@ import (
 
 	"go.pennock.tech/tabular"
 	"go.pennock.tech/tabular/markdown"
+	"go.pennock.tech/tabular/properties/align"
 )
 
 type hostileStringer struct{ s string }
@@ -49,5 +50,54 @@ func runC08Items(x *X) {
 			return
 		}
 		c08Judge(x, &c08Input{g: g}, tags, out, err)
+	})
+}
+
+// family "wrapper-built-by-hand": MarkdownTable is an exported struct with an exported embedded Table, so a wrapper
+// can exist that never went through Wrap/New - a struct literal around a core table, or a wrapper whose Table field
+// was pointed at another table afterwards.  Whatever such a wrapper renders must still be neutralised GFM.
+func runC08ByHand(x *X) {
+	x.Explore("wrapper-built-by-hand", ExploreOpts{ShardDepth: 2, Bound: fmt.Sprintf("{&MarkdownTable{Table: core}, New() with .Table pointed at a core table, Wrap(a) with .Table pointed at b} x %d hostile atoms x header | body position x column alignment unset | right", len(c08Atoms))}, func(c *Chooser) {
+		route := c.Choose(3)
+		s := c08Atoms[c.Choose(len(c08Atoms))]
+		hdr := c.Bool()
+		right := c.Bool()
+		g := &Grid{HasHeader: true, Header: []string{"h1", "h2"}, Rows: []GridRow{{Cells: []string{"a", "b"}}, {Sep: true}, {Cells: []string{"c"}}}}
+		if hdr {
+			g.Header[1] = s
+		} else {
+			g.Rows[0].Cells[0] = s
+		}
+		core := tabular.New()
+		g.Build(core)
+		in := &c08Input{g: g}
+		if right {
+			core.Column(2).SetProperty(align.PropertyType, align.Right)
+			in.aligns = []interface{}{nil, nil, align.Right}
+		}
+		var mt *markdown.MarkdownTable
+		switch route {
+		case 0:
+			mt = &markdown.MarkdownTable{Table: core}
+		case 1:
+			mt = markdown.New()
+			mt.Table = core
+		case 2:
+			other := tabular.New()
+			other.AddHeaders("zz")
+			mt = markdown.Wrap(other)
+			mt.Table = core
+		}
+		c.Logf("route %d (0 struct literal, 1 New()+Table=, 2 Wrap(other)+Table=); text %q in the %s; column 2 right-aligned %v", route, s, map[bool]string{true: "header", false: "body"}[hdr], right)
+		x.Transition(1)
+		x.Nontrivial(fmt.Sprint(route, hdr, right, s))
+		tags := append(g.Tags(), "wrapper_not_made_by_Wrap_or_New")
+		var out string
+		var err error
+		if p, val, site := Safe(func() { out, err = mt.Render() }); p {
+			x.FailSite("C08.no_panic", append(tags, "panic"), site, "markdown Render panicked: %v", val)
+			return
+		}
+		c08Judge(x, in, tags, out, err)
 	})
 }
